@@ -15,6 +15,13 @@ import (
 //	they only ever carry the genuine residue of earlier operations of the same world.
 func init() {
 	simrt.RegisterPoolHook("proto/binary.bpPool", &simrt.PoolHook{
+		// the capacity of a fresh write buffer is an environment knob (default 4096): small ones make the
+		// buffer run full at every possible point of a marshal (speculative length prefixes included)
+		Shape: func(w *simrt.World, x interface{}) {
+			if knobs.PBBufCap >= 0 {
+				x.(*binary.BinaryProtocol).Buf = make([]byte, 0, knobs.PBBufCap)
+			}
+		},
 		Poison: func(w *simrt.World, x interface{}) uint64 {
 			p := x.(*binary.BinaryProtocol)
 			fillBytes(p.Buf[:cap(p.Buf)], poisonByte)
